@@ -160,7 +160,7 @@ func startsWithEmptyLine(v string) bool {
 
 var specC08Write = Register(&Spec[WriteCase]{
 	Prop: "C08", Name: "write",
-	Rule: "paragraphs of 1..6 valid field names whose values are line sequences: 1..8 lines, each text (no trailing blanks, not exactly '.'), indented text, or empty (also runs of 2..3 empty lines, also as last line), trailing newline present or absent, first line sometimes indented; a value is sometimes the empty string. Oracle: WriteTo output has no empty/whitespace-only line; reading it gives exactly one paragraph with the same Order and per field the same logical lines (equal up to one trailing newline); writing what was read reproduces the text byte for byte; with a whitespace-only (not empty) first line put in front of a value the written form still has no whitespace-only line and reads back as one paragraph; WriteTo / Encoder.Encode into a writer that fails after 0, 1, half or all but one of the bytes return an error and have delivered a prefix of the text. Non-trivial: some value has >= 2 lines; distinct by paragraph.",
+	Rule: "paragraphs of 1..6 valid field names whose values are line sequences: 1..8 lines, each text (no trailing blanks, not exactly '.'), indented text, or empty (also runs of 2..3 empty lines, also as last line), trailing newline present or absent, first line sometimes indented; a value is sometimes the empty string. Oracle: WriteTo output has no empty/whitespace-only line; reading it gives exactly one paragraph with the same Order and per field the same logical lines (equal up to one trailing newline); writing what was read reproduces the text byte for byte; with a whitespace-only (not empty) line put in front of a value, behind its first line or at its end the written form still has no whitespace-only line and reads back as one paragraph; WriteTo / Encoder.Encode into a writer that fails after 0, 1, half or all but one of the bytes return an error and have delivered a prefix of the text. Non-trivial: some value has >= 2 lines; distinct by paragraph.",
 	Check: func(c WriteCase, r *Recorder) error {
 		nt := false
 		for _, f := range c.Feats {
@@ -217,6 +217,30 @@ var specC08Write = Register(&Spec[WriteCase]{
 			}
 			if bq, err := readParas(wq); err != nil || len(bq) != 1 || strings.Join(bq[0].Order, "\x00") != strings.Join(c.P.Order, "\x00") {
 				return errf("value %q (a whitespace-only first line) written as %q reads back as %d paragraphs (err %v)", q.Values[k0], wq, len(bq), err)
+			}
+		}
+		// ... and the same for a whitespace-only line further down in a value (behind its first line,
+		// and as its last line), whatever the other lines look like
+		for li, lead := range []string{"  ", "\t", " \t "} {
+			q := c.P.para()
+			k0 := c.P.Order[li%len(c.P.Order)]
+			v := c.P.Values[k0]
+			first, rest := v, ""
+			if i := strings.Index(v, "\n"); i >= 0 {
+				first, rest = v[:i], v[i:]
+			}
+			for _, hv := range []string{first + "\n" + lead + rest, strings.TrimSuffix(v, "\n") + "\n" + lead + "\n", strings.TrimSuffix(v, "\n") + "\n" + lead, "a\n" + lead + "\nb"} {
+				q.Values[k0] = hv
+				wq, err := writePara(q)
+				if err != nil {
+					return errf("WriteTo of a value with a whitespace-only line %q: %v", hv, err)
+				}
+				if err := noBlankLineInside(wq); err != nil {
+					return errf("value %q (a whitespace-only line inside): %v", hv, err)
+				}
+				if bq, err := readParas(wq); err != nil || len(bq) != 1 || strings.Join(bq[0].Order, "\x00") != strings.Join(c.P.Order, "\x00") {
+					return errf("value %q (a whitespace-only line inside) written as %q reads back as %d paragraphs (err %v)", hv, wq, len(bq), err)
+				}
 			}
 		}
 		// a writer that fails (disk full, connection gone) after k bytes: what was written is a
